@@ -99,6 +99,15 @@ CHECKS = {
         "The native target appends the same 32 NUL sentinels as utoken.scan.",
         "DESIGN.md section 2 C10",
     ),
+    "C11": (
+        "exploration",
+        "Hypothesis synthetic wikis x metabooks x API limits x latency scripts against the real fetcher (make_nuwiki + a subclass of the real "
+        "MwApi with only the HTTP layer replaced); oracle: closure computed from the wiki model, archive read back with nuwiki.Adapt",
+        "Thousands of generated wikis per run; URL building, batching, query-continue handling, result merging, greenlet fan-out and the "
+        "archive writer are the real code; expected texts, image closure, description pages and contributor lists come from the model.",
+        "Greenlet interleavings are sampled (latency script), not enumerated; redirects one level deep, no cycles; download client stubbed.",
+        "DESIGN.md section 2 C11",
+    ),
     "C12": (
         "exploration",
         "Hypothesis-generated titles x spelling operators x 24 site configurations against algebraic laws L1-L4 "
